@@ -95,6 +95,10 @@ func genOp(rng *rand.Rand, multi, big bool, shim bool) outb.Op {
 		if multi && op.Sizes[0] < 16 {
 			op.Sizes[0] = 16
 		}
+		if rng.Intn(8) == 0 {
+			// a file with nothing left to send (empty, or positioned at its end)
+			op = outb.Op{Kind: "sendfile-empty", Off: rng.Intn(2) * rng.Intn(5000)}
+		}
 	}
 	if rng.Intn(5) == 0 {
 		op.Pause = rng.Intn(300)
@@ -180,7 +184,7 @@ func genCase(r *h.Run, phase string, idx int) caseT {
 			n := 1 + rng.Intn(5)
 			for i := 0; i < n; i++ {
 				op := genOp(rng, true, false, shim)
-				if op.Kind == "sendfile" { // keep the poller goroutine free of file creation
+				if op.Kind == "sendfile" || op.Kind == "sendfile-empty" { // keep the poller goroutine free of file creation
 					op.Kind = "write"
 				}
 				cs.OnData = append(cs.OnData, op)
